@@ -3,7 +3,9 @@ CFG = {
     "cmd": "c14",
     "batches": lambda tier, seed: [("exhaustive", "-mode exhaustive -tier %s" % tier),
                                    ("random", "-mode random -tier %s" % tier),
-                                   ("big", "-mode big -tier %s" % tier)],
+                                   ("big", "-mode big -tier %s" % tier),
+                                   ("ctor", "-mode ctor -tier %s" % tier),
+                                   ("retain", "-mode retain -tier %s" % tier)],
     "signatures": {},
     "max_report": 2,
     "rule": "A case is one graph (kind U/D/WU/WD, vertex count, AddEdge sequence) followed by queries: Paths(s,strategy).To(v) for all "
@@ -12,7 +14,12 @@ CFG = {
             "exhaustive: every multiset of <= 5 edges over <= 4 vertices incl. self-loops and parallel edges (weights from {0,1} or {0,1,2}; "
             "sampled in the quick tier, complete in thorough), edge order and end-point order shuffled; random: n <= 40, DAGs, near-DAGs, "
             "rings, islands, loop/parallel-heavy, out-of-range end points, weight regimes all-zero / all-equal / many ties / wide / 2^20; "
-            "big: chains, stars, in-stars, reversed and double chains of 1020..1030 vertices (list block size 1024). "
+            "big: chains, stars, in-stars, reversed and double chains of 1020..1030 vertices (list block size 1024); "
+            "ctor: for all four graph types the graph is built by the variadic constructor from a prefix of the edge list and extended by AddEdge "
+            "(every split point), E() and every adjacency list re-read after every AddEdge (also a random prefix in the random mode); "
+            "retain: several result objects of ONE graph object (Paths for several sources/strategies, Orders, CC/SCC, DirectedCycle, Topological, "
+            "MST, SPT) are kept, further queries and AddEdge calls follow, then the earlier objects are read (twice) and checked with the proved "
+            "checkers against the graph as it was when each object was created; every op runs under a 3 s watchdog. "
             "Every implementation answer is validated by the extracted checkers (check_path, check_cycle, check_topo, check_scc, check_spt, "
             "check_msf: all proved sound) and against independent references (Floyd-Warshall hop counts and distances, Kruskal weight); exact "
             "equality with the model's tie-breaking is a fidelity observable (not compared for Prim/Dijkstra trees: abstract priority queue). "
